@@ -20,7 +20,7 @@ META = dict(
     decides='field order/type/tag agreement of every record and primitive codec; exact item count for maps; the Time lossiness',
     undecided='value-level equality for all inputs of the URI/Bytes/Hash codecs (byte-copy codecs, trusted)',
     trusted_base=['rustc MIR construction + callee resolution'],
-    rules=['K7 record sequences', 'K7 field order of equally typed components', 'K7 Option sentinels', 'K7 primitive endianness pairs', 'K7 map item count', 'lossiness of Time'],
+    rules=['K7 record sequences', 'K7 field order of equally typed components', 'K7 Option sentinels', 'K7 primitive endianness pairs', 'K7 map item count', 'lossiness of Time', 'K7 decoders accept the whole range their encoder writes'],
 )
 
 RECORDS = [
